@@ -6,6 +6,7 @@ package main
 
 import (
 	"bufio"
+	"encoding/json"
 	"flag"
 	"fmt"
 	"os"
@@ -16,6 +17,35 @@ import (
 type propFn func(c *ctx)
 
 var props = map[string]propFn{}
+
+// replays re-execute one recorded case against the implementation; when a property has no entry
+// the recorded case (with its recorded observations) is re-emitted and re-judged by the driver.
+var replays = map[string]func(c *ctx, in map[string]interface{}){}
+
+func runReplay(c *ctx) {
+	data, err := os.ReadFile(c.replay)
+	if err != nil {
+		fmt.Fprintln(os.Stderr, err)
+		os.Exit(2)
+	}
+	for _, line := range strings.Split(string(data), "\n") {
+		line = strings.TrimSpace(line)
+		if line == "" {
+			continue
+		}
+		var in map[string]interface{}
+		if err := json.Unmarshal([]byte(line), &in); err != nil {
+			fmt.Fprintln(os.Stderr, "replay:", err)
+			os.Exit(2)
+		}
+		if f, ok := replays[c.prop]; ok {
+			f(c, in)
+		} else {
+			delete(in, "k")
+			c.emit(in)
+		}
+	}
+}
 
 type ctx struct {
 	prop    string
@@ -73,7 +103,11 @@ func main() {
 		c.budget = 20
 	}
 	silenceLogs()
-	fn(c)
+	if c.replay != "" {
+		runReplay(c)
+	} else {
+		fn(c)
+	}
 	c.emitStats()
 	c.w.Flush()
 }
